@@ -1,6 +1,8 @@
 import PegVerif.Proofs.RefineRule
 import PegVerif.Proofs.Complete
 import PegVerif.Proofs.Boundary
+import PegVerif.Proofs.PegRelation
+import PegVerif.Proofs.Termination
 /-
   C01 – generated parsers recognise exactly the PEG language of the grammar.
 
@@ -56,12 +58,45 @@ theorem C01_deterministic (env : Env) (hp : PureHooks env.hooks) (hnl : NoLeftre
 /-- **Completeness.** Whenever the PEG reading answers, the generated parser (model) answers too,
     with enough fuel, and abstracts to the same answer – in particular it terminates exactly when the
     PEG reading does ("the parse terminates" for every grammar/input on which PEG semantics is
-    defined; the unconditional termination statement for syntactically well-formed grammars is not
-    proved – see DESIGN.md). -/
+    defined; the unconditional statement for well-formed grammars is `C01_terminates` below). -/
 theorem C01_complete (env : Env) (hp : PureHooks env.hooks) (hnl : NoLeftrec env.g) (rule : String)
     (inp : List UInt8) (u m : Nat) {r} (h : Spec.parse env u m rule inp = some r) :
     ∃ n r' g', parseAdvanced env n rule inp u = some (r', g') ∧ abs r' = r :=
   parse_complete env hp hnl rule inp u m h
+
+/-! ### termination on every input (Proofs/Termination.lean)
+
+  `wfCheck g settings` is a decidable syntactic check (Ford's well-formedness): every referenced rule is
+  defined, no include cycle, no closure over a nullable body (through rules and includes), and no rule
+  reaches itself in left position (a rank that strictly decreases along every left-call edge exists) – under
+  the whitespace-skipping settings, so a `Whitespace` rule that skips is rejected. It is conservative. -/
+
+/-- **C01, "for every such grammar and input the parse terminates".** For a grammar that passes the
+    well-formedness check, the PEG reading answers every (rule, input) – with any user functions, any
+    user context. -/
+theorem C01_terminates (env : Env) (u : Nat) (hwf : wfCheck env.g env.settings = true)
+    (rule : String) (inp : List UInt8) : ∃ n r, Spec.parse env u n rule inp = some r :=
+  Peg.C01_terminates env u hwf rule inp
+
+/-- … and so does the generated parser (model), and its answer is the PEG answer. -/
+theorem C01_terminates_impl (env : Env) (hp : PureHooks env.hooks) (hnl : NoLeftrec env.g)
+    (hwf : wfCheck env.g env.settings = true) (rule : String) (inp : List UInt8) (u : Nat) :
+    ∃ n r' g', parseAdvanced env n rule inp u = some (r', g') ∧
+      ∃ m, Spec.parse env u m rule inp = some (abs r') :=
+  Peg.C01_terminates_impl env hp hnl hwf rule inp u
+
+/-- non-vacuity on the largest grammar at hand: peginator's own grammar (re-extracted from
+    /repo/grammar.ebnf on every run) passes the check, hence the front end terminates on every text -/
+theorem C01_metaGrammar_wellformed : wfCheck Extracted.metaGrammar {} = true := metaGrammar_wf
+
+theorem C01_frontEnd_terminates (text : List UInt8) : ∃ n, FrontEnd.parse n text ≠ .other "out of fuel" :=
+  frontEnd_terminates text
+
+/-- the check is not vacuous in the other direction either: the textbook non-terminating grammars are rejected -/
+example :
+    let g : Grammar := ⟨[.rule { directives := [.export], name := "A", definition := .choice [.seq [.closure (.choice [.seq [.opt (.choice [.seq [.lit false [.chr 'x']]])]]) false]] }]⟩
+    wfCheck g {} = false := by
+  decide +kernel
 
 /-! ### terminals match exactly the characters the syntax reference says (at a character boundary
     of valid UTF-8: `At cs pre rem s` = consumed `pre`, remaining `rem`) -/
@@ -91,6 +126,26 @@ theorem C01_insensitive_literal {cs pre rem : List Char} {s : St} (hat : At cs p
       ∃ p t, rem = p ++ t ∧ p.map charToAsciiLower = l ∧ s' = { s with rest := enc t, off := s.off + (enc p).length } ∧
         At cs (pre ++ p) t s' :=
   parseStringLiteralInsensitive_ok_iff hl hat
+
+/-! ### the reference semantics is the textbook big-step PEG relation `Sem` (Proofs/PegRelation.lean:
+    one constructor per rule of the semantics, readable in minutes) -/
+
+/-- the functional reference semantics and the relation coincide (no hypotheses) -/
+theorem C01_relation_iff_reference {env : Env} {u : Nat} {name : String} {s : St} {r : Res Val} :
+    Sem env u (.rule name) s r ↔ ∃ n, (Spec.eval env u n).rule name s = some r :=
+  ⟨Spec.eval_complete_rule, fun ⟨_, h⟩ => Spec.eval_sound_rule h⟩
+
+/-- **C01, relational form.** The generated parser (model) answers `r` on (rule, input) iff `r` is
+    derivable in the PEG relation – "succeeds exactly when that rule, read as a parsing expression
+    grammar applied at offset 0, matches", with the tree and the consumed bytes. -/
+theorem C01_exactly_the_peg_language (env : Env) (hp : PureHooks env.hooks) (hnl : NoLeftrec env.g)
+    (rule : String) (inp : List UInt8) (u : Nat) {r : Res Val} :
+    Sem env u (.rule rule) (St.new inp) r ↔ ∃ n r' g', parseAdvanced env n rule inp u = some (r', g') ∧ abs r' = r :=
+  Sem.iff_parseAdvanced env hp hnl rule inp u r
+
+/-- the relation is deterministic -/
+theorem C01_relation_deterministic {env : Env} {u : Nat} {j : Judg} {s : St} {r r' : Res j.Out}
+    (h : Sem env u j s r) (h' : Sem env u j s r') : r = r' := Sem.det h h'
 
 /-! ### the PEG laws of the reference semantics, one by one -/
 
